@@ -77,11 +77,6 @@ def regenerate():
     sys.path.insert(0, os.path.join(VERIF, 'tools'))
     import gen
     status = gen.main(['--repo', REPO, '--out', os.path.join(THEORIES, 'Gen')])
-    extra = os.path.join(VERIF, 'tools', 'gen_extra.py')
-    if os.path.exists(extra):
-        import importlib
-        ge = importlib.import_module('gen_extra')
-        status.update(ge.main(REPO, os.path.join(THEORIES, 'Gen')))
     return status
 
 
@@ -187,6 +182,8 @@ def hash_int(s):
 
 # ------------------------------------------------------------------------------- findings
 def load_known_findings():
+    """known_findings.json (committed; never written at run time; assembled by tools/mkmanifest.py
+    from known_findings.d/Cxx.json)"""
     path = os.path.join(VERIF, 'known_findings.json')
     if not os.path.exists(path):
         return {'findings': [], 'fixed': []}
@@ -446,7 +443,9 @@ def run_prop(prop, ctx):
         if model_ok:
             for (c, i), cf, fc in zip(items, corr, fail):
                 if fc != 0:
-                    failing.append((c, i, fc))
+                    # a failing case is covered by a known finding only while the implementation
+                    # still behaves exactly as the model of the analysed defect predicts (cf == 0)
+                    failing.append((c, i, fc if cf == 0 else -fc))
                 elif cf != 0:
                     mismatching.append((c, i))
         else:
@@ -454,7 +453,7 @@ def run_prop(prop, ctx):
                 fc = prop.python_oracle(c, i)
                 if fc:
                     failing.append((c, i, fc))
-        need_more = (ctx.broken or mismatching) and not [f for f in failing if not prop.known_class(*f)]
+        need_more = (ctx.broken or mismatching) and not [f for f in failing if f[2] < 0 or not prop.known_class(*f)]
         if need_more and not done_extended:
             done_extended = True
             rounds.append(('ext', prop.extended_cases * (4 if ctx.thorough() else 1)))
@@ -465,7 +464,8 @@ def run_prop(prop, ctx):
     reported = set()
     new_fail = []
     for c, i, code in failing:
-        cls = prop.known_class(c, i, code)
+        cls = prop.known_class(c, i, code) if code > 0 else None
+        code = abs(code)
         entry = None
         if cls:
             entry = next((f for f in known.get('findings', []) if f['property'] == prop.id and f.get('class') == cls), None)
